@@ -157,6 +157,76 @@ func main() {
 			}
 		}
 	}
+	// ---- layer 2b: sequences of up to 3 accesses to the declared key inside ONE view: the
+	// lattice applies to the key's existence at the time of each access (a key removed earlier
+	// in the same view no longer exists, so inserting it again is a creation)
+	type step2 struct {
+		a   access
+		val string
+	}
+	menu := []step2{{aGet, ""}, {aInsert, "x"}, {aInsert, "y"}, {aRemove, ""}}
+	var seqs [][]step2
+	for _, a := range menu {
+		for _, b := range menu {
+			seqs = append(seqs, []step2{a, b})
+			for _, c := range menu {
+				seqs = append(seqs, []step2{a, b, c})
+			}
+		}
+	}
+	for p := 0; p < 8; p++ {
+		for _, exists := range []bool{false, true} {
+			for _, sq := range seqs {
+				evals++
+				base := map[string][]byte{}
+				if exists {
+					base[kD] = []byte("v")
+				}
+				ts := tstate.New(2)
+				v := ts.NewView(state.Keys{kD: state.Permissions(p)}, state.ImmutableStorage(base), 2)
+				cur, has := "v", exists
+				desc := ""
+				for si, st := range sq {
+					desc += fmt.Sprintf("%s(%s);", st.a, st.val)
+					want := allowed(state.Permissions(p), st.a, has)
+					var err error
+					var got []byte
+					switch st.a {
+					case aGet:
+						got, err = v.GetValue(ctx, []byte(kD))
+					case aInsert:
+						err = v.Insert(ctx, []byte(kD), []byte(st.val))
+					case aRemove:
+						err = v.Remove(ctx, []byte(kD))
+					}
+					refused := errors.Is(err, tstate.ErrInvalidKeyOrPermission)
+					rep := map[string]any{"perm": p, "sequence": desc, "exists_at_start": exists}
+					if want && refused {
+						r.Violation("C05:declared-access-refused", fmt.Sprintf("permission %d, key exists at start=%v, sequence %s: step %d refused", p, exists, desc, si), rep)
+						break
+					}
+					if !want && !refused {
+						r.Violation("C05:undeclared-access-allowed", fmt.Sprintf("permission %d, key exists at start=%v, sequence %s: step %d (%s, key exists now=%v) was not refused (err=%v)", p, exists, desc, si, st.a, has, err), rep)
+						break
+					}
+					if !want {
+						continue
+					}
+					switch st.a {
+					case aGet:
+						if has != (err == nil) || (has && string(got) != cur) {
+							r.Violation("C05:allowed-read-wrong", fmt.Sprintf("permission %d sequence %s: read %q,%v expected %q present=%v", p, desc, got, err, cur, has), rep)
+						}
+					case aInsert:
+						cur, has = st.val, true
+					case aRemove:
+						has = false
+					}
+					nontriv++
+				}
+			}
+		}
+	}
 	// ---- layer 3: whole transactions (two actions whose declarations union)
 	perms := []state.Permissions{state.None, state.Read, state.Allocate, state.Write, state.All}
 	for _, p1 := range perms {
@@ -230,7 +300,7 @@ func main() {
 	r.Sample(map[string]any{"scope": "k/1=read", "access": "insert", "expected": "refused, view unchanged"})
 	r.Cov["evaluations"] = evals
 	r.Cov["distinct_nontrivial"] = nontriv
-	r.Cov["rule"] = "layer 1: all pairs of permission bytes through Keys.Add/Has; layer 2: every permission byte x {absent, present, deleted earlier in the block} x {get, insert, remove} x {declared key, same prefix with another size suffix, undeclared key} on the real TStateView with a pending write on another key (refused => ErrInvalidKeyOrPermission and identical private dump); layer 3: transactions whose two actions declare the key with p1 and p2 (5x5) x access x existence through Transaction.Execute; non-trivial = cases whose verdict was checked against the lattice (all but setup)"
+	r.Cov["rule"] = "layer 1: all pairs of permission bytes through Keys.Add/Has; layer 2: every permission byte x {absent, present, deleted earlier in the block} x {get, insert, remove} x {declared key, same prefix with another size suffix, undeclared key} on the real TStateView with a pending write on another key (refused => ErrInvalidKeyOrPermission and identical private dump); layer 2b: every sequence of 2-3 accesses {get, insert x, insert y, remove} to the declared key inside one view x permission byte x initial existence, lattice applied to the key's existence at each step; layer 3: transactions whose two actions declare the key with p1 and p2 (5x5) x access x existence through Transaction.Execute; non-trivial = cases whose verdict was checked against the lattice (all but setup)"
 	r.Assumptions = []string{"lattice: read needs Read, modify needs Write, create needs Write and Allocate (the exported permission constants)"}
 	r.Finish()
 }
